@@ -351,6 +351,12 @@ func (d *Decoder) scan(data []byte, atEOF bool) (advance int, token []byte, err 
 
 	// Look for new blocks
 	switch l := startsBlockQuote(data); {
+	case l > 0 && !atEOF && (l == len(data) || !utf8.FullRune(data[l:])):
+		// The quote marker is followed by whitespace up to the end of what has
+		// been read so far (or by an incomplete rune): more whitespace may
+		// follow, so ask for more data instead of letting the token depend on
+		// how the input was chunked.
+		return 0, nil, nil
 	case l > 0 && !d.quoteStarted:
 		// If we haven't yet consumed our block quote start token, do so.
 		d.mask |= BlockQuote | BlockQuoteStart
@@ -435,21 +441,23 @@ func (d *Decoder) scanPre(data []byte, atEOF bool) (advance int, token []byte, e
 	case idx == 0 && !atEOF && len(data) == len(fence):
 		// We need to make sure it's followed by a newline, so get more data.
 		return 0, nil, nil
-	case idx == 0 && (atEOF || (len(data) > len(fence) && data[len(fence)] == '\n')):
+	case idx == 0 && ((atEOF && len(data) == len(fence)) || (len(data) > len(fence) && data[len(fence)] == '\n')):
 		d.mask |= BlockPreEnd
 		d.clearMask |= BlockPre | BlockPreEnd
 		l := len(fence)
-		if !atEOF {
+		// The newline after the fence belongs to the token whether or not the end
+		// of the input is already known.
+		if len(data) > l && data[l] == '\n' {
 			l++
 		}
 		return l, data[:l], nil
 	}
-	if atEOF {
-		return len(data), data, nil
-	}
 	newLineIDX := bytes.IndexByte(data, '\n')
 	if newLineIDX >= 0 {
 		return newLineIDX + 1, data[:newLineIDX+1], nil
+	}
+	if atEOF {
+		return len(data), data, nil
 	}
 	return 0, nil, nil
 }
